@@ -415,14 +415,64 @@ def _truth(x):
 
 
 def argsort(a, kind=None, **kw):
-    """stable argsort; comparisons on symbolic values fork"""
+    """argsort; comparisons on symbolic values fork. Only kind='stable'/'mergesort' keeps ties in their original order: numpy's
+    default quicksort gives NO guarantee for ties, so their relative order is an arbitrary (solver-chosen) permutation."""
     idx = list(range(len(a.data)))
     for i in range(1, len(idx)):
         j = i
         while j > 0 and (a.data[idx[j]] < a.data[idx[j - 1]]):
             idx[j], idx[j - 1] = idx[j - 1], idx[j]
             j -= 1
+    if kind not in ('stable', 'mergesort') and UNSTABLE_TIES:
+        out, i = [], 0
+        while i < len(idx):
+            j = i + 1
+            while j < len(idx) and _truth(a.data[idx[j]] == a.data[idx[i]]):
+                j += 1
+            group = idx[i:j]
+            if 1 < len(group) <= 5:
+                rest = list(group)
+                group = [rest.pop(random._pick(len(rest))) for _ in range(len(rest))]
+            out += group
+            i = j
+        idx = out
     return Arr(idx, 'int')
+
+
+UNSTABLE_TIES = False      # set by harnesses that want the unspecified tie order of an unstable sort explored
+
+
+def searchsorted(a, v, side='left'):
+    """positions where the values v would be inserted into the sorted array a (comparisons fork)"""
+    vs = v.data if isinstance(v, Arr) else [v]
+    out = []
+    for x in vs:
+        k = 0
+        for y in a.data:
+            if (y < x) if side == 'left' else (y <= x):
+                k += 1
+        out.append(k)
+    return Arr(out, 'int') if isinstance(v, Arr) else out[0]
+
+
+def allclose(a, b, rtol=1e-05, atol=1e-08):
+    """numpy.allclose on exact integers: |a - b| <= atol + rtol * |b| element-wise"""
+    A = a.data if isinstance(a, Arr) else [a]
+    B = b.data if isinstance(b, Arr) else [b] * len(A)
+    if len(A) != len(B):
+        raise ValueError('operands could not be broadcast together')
+    from fractions import Fraction
+    sc = 10 ** 8
+    r, t = int(Fraction(str(rtol)) * sc), int(Fraction(str(atol)) * sc)
+    res = True
+    for x, y in zip(A, B):
+        d, ay = builtins.abs(x - y), builtins.abs(y)
+        c = (d * sc <= t + r * ay)
+        if c is False:
+            return False
+        if c is not True:
+            res = mkbool(z3.And(symx.zbool(res), symx.zbool(c)))
+    return res
 
 
 def sort(a, **kw):
